@@ -225,4 +225,10 @@ func init() {
 
 	mut("C02", "batch delete leaves the directory of a virtual channel in place", "cesium/delete.go",
 		"		err = db.removeChannel(ch)\n		if err != nil {\n			return\n		}\n\n		// Rename the files first, so we can avoid hogging the mutex while deleting the", "		err = db.removeChannel(ch)\n		if err != nil {\n			return\n		}\n		if vok {\n			continue\n		}\n\n		// Rename the files first, so we can avoid hogging the mutex while deleting the", "C02.R4.delete")
+
+	// ---------------- C03.R2.direction
+	mut("C03", "the search compares the end of the range with the probed start", "cesium/internal/domain/index.go",
+		"		if tr.Start.Before(ptr.Start) {\n			end = mid - 1", "		if tr.End.Before(ptr.Start) {\n			end = mid - 1", "C03.R2.direction")
+	mut("C03", "the search turns right when the range starts before the probe", "cesium/internal/domain/index.go",
+		"		if tr.Start.Before(ptr.Start) {\n			end = mid - 1\n		} else {\n			start = mid + 1\n		}", "		if tr.Start.Before(ptr.Start) {\n			start = mid + 1\n		} else {\n			end = mid - 1\n		}", "C03.R2.direction")
 }
